@@ -76,7 +76,7 @@ CONTRACTS['ChannelItem.__init__[verified]'] = dict(
 # scenario (client-level harness, /verif/scenarios/s_c20.py) over the REAL set and item classes: a rejected object consumes no copy
 # number and is not in the set; the accepted same-named objects are numbered 0, 1
 CONTRACTS['scenario_rejected_item_then_accepted_item'] = dict(
-    props=['C20', 'C07'], globals=GC, params={'name': 'str'}, returns=None, inline_all=True, must_return=True,
+    props=['C20', 'C07', 'C14'], globals=GC, params={'name': 'str'}, returns=None, inline_all=True, must_return=True,
     requires=['len(name) > 0'], may_raise=['ValueError', 'UnicodeEncodeError'],
     ensures=[('the-bad-value-is-rejected', 'result[0] == True'),
              ('copy-numbers-as-if-the-rejected-call-had-never-been-made', 'result[1] == 0 and result[2] == 1'),
@@ -89,7 +89,7 @@ CONTRACTS['scenario_identity_of_same_named_channels'] = dict(
              ('both-carry-the-reference-of-the-defining-origin', 'result[2] == result[4] and result[3] == result[4]'),
              ('both-are-channels-of-the-logical-file', 'result[5] == 2')])
 CONTRACTS['scenario_rejected_add_then_valid_add'] = dict(
-    props=['C20'], globals=GC, params={'name': 'str'}, returns=None, inline_all=True, must_return=True,
+    props=['C20', 'C14', 'C07'], globals=GC, params={'name': 'str'}, returns=None, inline_all=True, must_return=True,
     requires=['len(name) > 0'], may_raise=['ValueError', 'UnicodeEncodeError'],
     ensures=[('rejected', 'result[0] == True'), ('the-valid-call-is-numbered-as-if-the-rejected-one-had-never-been-made', 'result[1] == 0'),
              ('only-the-accepted-object-is-registered', 'result[2] == 1')])
@@ -105,7 +105,7 @@ CONTRACTS['scenario_rejected_origin_then_valid_origin'] = dict(
              ('waiting-objects-and-the-header-get-the-reference-of-the-origin-that-exists', 'result[1] == result[2] and result[3] == result[2]'),
              ('only-the-accepted-origin-is-registered', 'result[4] == 1')])
 CONTRACTS['scenario_attrsetup_with_falsy_value'] = dict(
-    _SC, props=['C05', 'C13'], params={'name': 'str'}, requires=['len(name) > 0'],
+    _SC, props=['C05', 'C13', 'C12'], params={'name': 'str'}, requires=['len(name) > 0'],
     ensures=[('a-zero-given-through-AttrSetup-dict-or-keyword-is-assigned-with-its-units',
               "result[0] == 0 and result[1] == 'm' and result[2] == 0 and result[3] == 'm' and result[4] == 0")])
 CONTRACTS['scenario_representation_code_follows_the_current_value'] = dict(
@@ -145,3 +145,10 @@ CONTRACTS['scenario_long_name_text_then_object'] = dict(
     _SC, props=['C05', 'C07'], params={'name': 'str', 'text': 'str'}, requires=['len(name) > 0', 'len(text) > 0'],
     ensures=[('a-text-long-name-is-ASCII-and-a-LONG-NAME-object-assigned-later-is-written-as-a-reference', 'result[0].value == 20 and result[1].value == 23'),
              ('the-reference-is-the-object-the-user-passed', 'result[2] == True')])
+CONTRACTS['scenario_no_format_records_per_logical_file_in_order'] = dict(
+    _SC, props=['C16', 'C18'], params={'name': 'str', 'p1': 'str', 'p2': 'str', 'p3': 'str'}, requires=['len(name) > 0'],
+    ensures=[('each-record-once-and-in-the-order-of-addition-also-when-two-objects-alternate',
+              'result[0] == 3 and result[1] == True and result[2] == True and result[3] == True'),
+             ('each-record-refers-to-the-object-it-was-added-under', 'result[4] == True and result[5] == True and result[6] == True'),
+             ('payload-kept', 'result[7] == p1'),
+             ('the-other-logical-file-holds-none-of-them', 'result[8] == 0')])
